@@ -5,7 +5,7 @@ date/timedelta/isocalendar arithmetic written directly from the statement.
 """
 import datetime as dt
 
-from rtmon import dtlib
+from rtmon import dtlib, numerals
 
 LEVEL = 'exploration'
 RULE = ('reference datetimes: every weekday, month ends, 02-29, year boundaries, ISO week 52/53/1 transitions (all days from 12-24 to 01-07 '
@@ -57,6 +57,9 @@ CULT_REL = {
               'last month': ['上个月', '上月'], 'next year': ['明年'], 'last year': ['去年'],
               'next wd': ['下{w}'], 'last wd': ['上{w}'], 'this wd': ['这{w}', '本{w}']},
 }
+
+
+WORD_N = {'zh-cn': 5001}      # cultures whose written-out N is driven too (upper bound of N)
 
 
 def monday(d):
@@ -134,8 +137,11 @@ def check(m, culture, q, R, kind, arg, ctx):
                 for k, x in w.items():
                     if v.get(k) != x:
                         mech = mech or ('wrong-' + k)
+    if mech and culture == 'zh-cn' and q.startswith('三十') and r and all(str(v.get('timex', '')).startswith('XXXX-XX-3') for v in dtlib.vals(r[0])):
+        # known-finding classifier: the written-out N 三十.. (30-39) is taken for the day-of-month 三十(号)
+        mech = 'zh-written-thirties-read-as-day-of-month'
     if mech:
-        ctx.fail('%s:%s' % (mech, kind), where, key, case, {'type': typ, 'values': want}, {'entities': obs, 'swallowed': lib.take_swallowed()})
+        ctx.fail(mech if mech.startswith('zh-written') else '%s:%s' % (mech, kind), where, key, case, {'type': typ, 'values': want}, {'entities': obs, 'swallowed': lib.take_swallowed()})
 
 
 def iso_boundary_refs():
@@ -167,6 +173,12 @@ def gen(ctx):
             yield 'en-us', '%d day%s from now' % (N, pl), R, 'days from now', N
             yield 'en-us', '%d week%s ago' % (N, pl), R, 'weeks ago', N
             yield 'en-us', 'in %d week%s' % (N, pl), R, 'in weeks', N
+        for N in (3, 12, r.randrange(2, 100), r.randrange(100, 1000)):
+            wN = numerals.en_words(N)
+            yield 'en-us', '%s days ago' % wN, R, 'days ago', N
+            yield 'en-us', 'in %s days' % wN, R, 'in days', N
+            yield 'en-us', '%s weeks ago' % wN, R, 'weeks ago', N
+            yield 'en-us', 'in %s weeks' % wN, R, 'in weeks', N
         for i, w in enumerate(dtlib.WD_EN):
             yield 'en-us', 'next ' + w, R, 'next wd', i
             yield 'en-us', 'last ' + w, R, 'last wd', i
@@ -185,6 +197,10 @@ def gen(ctx):
                     if '{n}' in t:
                         for N in (2, 7, 30, 365, r.randrange(2, 5001)):
                             yield cu, t.format(n=N), R, kind, N
+                        if cu in WORD_N:
+                            # N written in words / numerals of the language
+                            for N in (3, 10, 21, r.randrange(2, 100), r.randrange(100, WORD_N[cu])):
+                                yield cu, t.format(n=numerals.LANGS[cu][0](N)[0][1]), R, kind, N
                     elif '{w}' in t:
                         for i, w in enumerate(WD[cu]):
                             yield cu, t.format(w=w), R, kind, i
